@@ -268,7 +268,22 @@ def check(ctx, rep):
                 out = ("idx", S1, wadd(("idx", S1, i1), ("idx", S1, j1)))
                 nj = arith.norm(upd.get(fj, ("?",)), env)
                 nS = arith.norm(upd.get(si[0], ("?",)), env)
-                no = arith.norm(prga_ret if prga_ret is not None else se.ret, env)
+                def table_len(x):
+                    """`self.state.len()`: the table is a fixed-size array, its length is in its type"""
+                    y = None
+                    if x[0] == "len":
+                        y = strip(x[1])
+                    elif util.is_call(x) and x[1].split("::")[-1] == "len" and ("slice" in x[1] or "array" in x[1]) and len(x[2]) == 1:
+                        y = strip(x[2][0])
+                    if y is None:
+                        return None
+                    while y[0] in ("after", "upd", "ref", "refv", "deref"):
+                        y = strip(y[3] if y[0] == "after" else y[1])
+                    if y == strip(("field", self_, si[0])):
+                        n_ = ctx.fb.ty(ctx.fb.adt_fields("rc4::Rc4")[si[0]]["ty"]).len
+                        return ("int", n_, "usize") if n_ is not None else None
+                    return None
+                no = arith.norm(util.map_term(strip(prga_ret if prga_ret is not None else se.ret), table_len), env)
                 rep.check(nj == j1, "prga", fn, "j-update", "j' = j +8 S[i']", "j update is %s, expected %s" % (arith.show(nj), arith.show(j1)), se.body.loc())
                 rep.check(nS == S1, "prga", fn, "swap", "S' = swap(S, i', j')", "state update is %s" % arith.show(nS)[:200], se.body.loc())
                 rep.check(no == out, "prga", fn, "output", "out = S'[S'[i'] +8 S'[j']]", "output byte is %s" % arith.show(no)[:300], se.body.loc())
@@ -610,6 +625,10 @@ def ksa_loops(ctx, rep, se):
         if util.is_call(src, "std::iter::Iterator::zip") and strip(src[2][0])[0] == "agg" and strip(src[2][0])[2] == "std::ops::Range":
             p2 = (head, elem, src, lp)
             continue
+        if util.is_call(src, "std::iter::Iterator::enumerate") and util.is_call(strip(src[2][0]), "std::iter::Iterator::take") and util.is_call(strip(strip(src[2][0])[2][0]), "std::iter::Iterator::cycle"):
+            # key.iter().cycle().take(256).enumerate(): item n is (n, key[n mod len]) like (0..256).zip(cycle)
+            p2 = (head, elem, src, lp)
+            continue
         r = sem.statements(lp)
         if r is not None and len(r[0]) == 1:
             d, A, v = r[0][0]
@@ -628,7 +647,7 @@ def ksa_loops(ctx, rep, se):
     rep.check(init_ok, "ksa", fn, "identity-init", "S[n] = n for every n before mixing (%s)" % how, "state initialisation is not S[n] = n for every n before the mixing pass", body.loc())
     # pass 2: for (n, k) in (0..256).zip(key.iter().cycle())
     head, elem, src, lp = p2
-    a, b = strip(src[2][0]), strip(src[2][1])
+    a, b = (strip(src[2][0]), strip(src[2][1])) if len(src[2]) == 2 else (strip(src[2][0]), ("?",))
 
     def is_256(x):
         x = util.numnorm(x)
@@ -642,7 +661,12 @@ def ksa_loops(ctx, rep, se):
             return y == strip(table_loc) or (y[0] == "field" and y[2] == si and in_self)
         return False
 
-    rng_ok = a[0] == "agg" and a[2] == "std::ops::Range" and a[4][0][:2] == ("int", 0) and is_256(a[4][1])
+    if util.is_call(src, "std::iter::Iterator::enumerate"):
+        tk = strip(src[2][0])
+        b = strip(tk[2][0])
+        rng_ok = is_256(tk[2][1])            # exactly 256 items, counted from 0 by enumerate()
+    else:
+        rng_ok = a[0] == "agg" and a[2] == "std::ops::Range" and a[4][0][:2] == ("int", 0) and is_256(a[4][1])
     cyc_ok = util.is_call(b, "std::iter::Iterator::cycle") and util.is_call(strip(b[2][0]), "core::slice::<impl [T]>::iter") and strip(strip(b[2][0])[2][0]) == ("param", key_param)
     rep.check(rng_ok and cyc_ok, "ksa", fn, "index-and-key-schedule", "i = 0..256 in order zipped with key bytes cycled (key[i mod len])", "mixing pass does not iterate (0..256) zipped with the cycled key", body.loc())
     st = algos.loop_state(se, head)
